@@ -2,7 +2,9 @@ package types
 
 import (
 	"fmt"
+
 	sdk "github.com/cosmos/cosmos-sdk/types"
+	"github.com/tendermint/tendermint/crypto"
 )
 
 const (
@@ -112,8 +114,12 @@ func (account Account) Validate() error {
 			return fmt.Errorf("internal account id cannot be empty")
 		}
 	case BaseAccount:
-		if _, err := sdk.AccAddressFromBech32(account.Id); err != nil {
+		address, err := sdk.AccAddressFromBech32(account.Id)
+		if err != nil {
 			return fmt.Errorf("base account id \"%s\" is not a valid bech32 address: %w", account.Id, err)
+		}
+		if address.Equals(sdk.AccAddress(crypto.AddressHash([]byte(DistributorMainAccount)))) {
+			return fmt.Errorf("distributor main account cannot be used as base account, use account type %s", Main)
 		}
 	case ModuleAccount:
 		if account.Id == DistributorMainAccount {
